@@ -19,7 +19,8 @@ REQUIRED = ["payload_only_in_payload_msg", "private_payload_release_sound", "dec
             "authn_sound", "tick_and_create_send_no_payload", "nonmember_cipher_gap",
             "fact_payload_query_checks", "fact_payload_finished_nil_guard", "fact_collect_guard", "fact_payload_store_checks", "fact_payload_writers", "fact_authenticate_steps",
             "fact_authenticator_selection", "release_only_to_listed_false", "release_only_to_listed_partial", "dummy_authenticator_only_without_tls", "configured_authn_sound",
-            "fact_server_tls_config", "authenticated_certificate_is_verified"]
+            "fact_server_tls_config", "authenticated_certificate_is_verified",
+            "connection_authenticated_only_via_authenticator", "fact_authenticate_call_sites"]
 
 
 def run(ctx):
@@ -202,7 +203,7 @@ def run(ctx):
     # ---- oracle 5: the real server TLS configuration (newServerTLSConfig) over a real crypto/tls handshake: a client certificate that does
     # not chain to the trust store (self-signed, other CA, none) is never accepted, in TLS 1.2 and 1.3
     t_bad, tls_lines = 0, 0
-    if not ctx.replay or '"op":"tlsclient"' in open(ctx.replay).read(4096):
+    if not ctx.replay or '"op":"tlsclient"' in open(ctx.replay).read(4096) or '"op":"cmauth"' in open(ctx.replay).read(4096):
         b3 = ctx.go_test_binary(PKG3, HARNESS3, "c15tls")
         if b3 is None:
             ctx.oblige("harness-builds:grpc.newServerTLSConfig", False, ctx.harness_error[-1200:])
@@ -217,6 +218,12 @@ def run(ctx):
                 tls_lines = len(impl3)
                 for k, l in enumerate(impl3):
                     j = json.loads(ops3[k])
+                    if j["op"] == "cmauth":
+                        # connection manager wrapper: authenticated only if a DID was claimed and the LEAF certificate covers its NutsComm host
+                        if "auth=true" in l and not (j["claimed"] != "" and j["cert"] and j["leaf_covers"]):
+                            t_bad += 1
+                            ctx.violation("C15:connection-authenticated-without-covering-leaf-certificate", f"grpcConnectionManager.authenticate/extractCertificate: {ops3[k]} -> {l}", "cmauth.jsonl", ops3[k])
+                        continue
                     if "accepted=true" in l and not (j["presented"] and j["chains"]):
                         t_bad += 1
                         if t_bad == 1:
